@@ -45,10 +45,12 @@ VARIABLES cell,          \* the endpoint's nonce cell (endpoint.nonce)
           acctKey,       \* CA account table: account id -> key on record
           retryDue,      \* the last answer was a recoverable error below the bound: the request has to be sent again
           caller,        \* who made the current logical request (a certificate; "none" in the model)
+          prev,          \* [url, fail]: the URL of the previous logical request of this attempt and how it ended
+                         \*   ("none" = answered 2xx, "adne" = accountDoesNotExist, "open" = anything else)
           bad            \* labels of the property guards violated by the last step
 
 vars == <<cell, issued, consumed, phase, tries, content, wire, answer, newest,
-          sentNonces, polls, pollUrl, nreq, acctKey, retryDue, caller, bad>>
+          sentNonces, polls, pollUrl, nreq, acctKey, retryDue, caller, prev, bad>>
 
 NoNonce == "none"
 NoContent == "none"
@@ -70,7 +72,7 @@ LabelsC04 == {"C04_Fresh", "C04_Url", "C04_Flattened", "C04_AlgMatchesKey",
               "C04_KeyChangeInner", "C04_Eab"}
 LabelsC08 == {"C08_AtMost10", "C08_RetryOnlyRecoverable", "C08_SameContent",
               "C08_NewestNonce", "C08_NoSuccessOnError", "C08_NoProblemDocFails",
-              "C08_PollAtMost20", "C08_ClassifyRecoverable", "C08_RetriesRecoverable"}
+              "C08_PollAtMost20", "C08_ClassifyRecoverable", "C08_RetriesRecoverable", "C08_NoResendAfterFailure"}
 Labels == LabelsC04 \cup LabelsC08
 
 (* A property guard: contributes its label to `bad' when F is false.  The   *)
@@ -78,6 +80,7 @@ Labels == LabelsC04 \cup LabelsC08
 Chk(label, F) == IF F THEN {} ELSE {label}
 
 NoAnswer == [kind |-> "none", type |-> "none", nonce |-> NoNonce]
+NoPrev == [url |-> "none", fail |-> "none"]
 Keep(vs) == UNCHANGED vs
 
 InitWith(table) ==
@@ -85,7 +88,7 @@ InitWith(table) ==
     /\ phase = "idle" /\ tries = 0 /\ content = NoContent
     /\ wire = NoNonce /\ answer = NoAnswer /\ newest = NoNonce
     /\ sentNonces = {} /\ polls = 0 /\ pollUrl = "none" /\ nreq = 0
-    /\ acctKey = table /\ retryDue = FALSE /\ caller = "none" /\ bad = {}
+    /\ acctKey = table /\ retryDue = FALSE /\ caller = "none" /\ prev = NoPrev /\ bad = {}
 
 Init == InitWith("a" :> "k")
 
@@ -93,18 +96,24 @@ Init == InitWith("a" :> "k")
 (* http::post entry.  isPoll: the call is made by pool_object! (it is        *)
 (* preceded by the 5 s polling pause); url identifies the polled object.     *)
 (* A new call while the previous one still owed a retransmission: the retry was dropped. *)
+(* the same request is made again although the previous call for it did not end well (and was not the *)
+(* accountDoesNotExist answer that sends the client off to register again)                             *)
+Resent(url, who) == prev.url = url /\ prev.fail = "open" /\ who = caller
 BeginAs(isPoll, url, who) ==
     /\ phase' = IF cell = NoNonce THEN "fetch" ELSE "loop"
     /\ retryDue' = FALSE /\ caller' = who
+    /\ prev' = [url |-> url, fail |-> "open"]
     /\ tries' = 0 /\ content' = NoContent /\ sentNonces' = {}
     /\ wire' = NoNonce /\ answer' = NoAnswer
     /\ nreq' = nreq + 1
     /\ IF isPoll
        THEN /\ bad' = Chk("C08_PollAtMost20", url = pollUrl => polls < MaxPolls)
                      \cup Chk("C08_RetriesRecoverable", ~retryDue)
+                     \cup Chk("C08_NoResendAfterFailure", ~Resent(url, who))
             /\ polls' = IF url = pollUrl THEN polls + 1 ELSE 1
             /\ pollUrl' = url
        ELSE polls' = 0 /\ pollUrl' = "none" /\ bad' = Chk("C08_RetriesRecoverable", ~retryDue)
+                                                           \cup Chk("C08_NoResendAfterFailure", ~Resent(url, who))
     /\ Keep(<<cell, issued, consumed, newest, acctKey>>)
 Begin(isPoll, url) == BeginAs(isPoll, url, "none")
 
@@ -113,6 +122,7 @@ Begin(isPoll, url) == BeginAs(isPoll, url, "none")
 AttemptOver(who) ==
     /\ bad' = Chk("C08_RetriesRecoverable", ~(retryDue /\ caller = who))
     /\ retryDue' = IF caller = who THEN FALSE ELSE retryDue
+    /\ prev' = IF caller = who THEN NoPrev ELSE prev
     /\ Keep(<<cell, issued, consumed, phase, tries, content, wire, answer, newest, sentNonces,
               polls, pollUrl, nreq, acctKey, caller>>)
 
@@ -122,13 +132,13 @@ CaGet(n) ==
     /\ issued' = IF n = NoNonce THEN issued ELSE issued \cup {n}
     /\ retryDue' = IF n = NoNonce THEN FALSE ELSE retryDue    \* a nonce fetch that fails ends the call (`?')
     /\ Keep(<<cell, consumed, phase, tries, content, wire, answer, newest, sentNonces,
-              polls, pollUrl, nreq, acctKey, caller>>) /\ bad' = {}
+              polls, pollUrl, nreq, acctKey, caller, prev>>) /\ bad' = {}
 
 (* update_nonce: the client stores the Replay-Nonce of an answer.             *)
 SetNonce(n) ==
     /\ cell' = n /\ newest' = n
     /\ Keep(<<issued, consumed, phase, tries, content, wire, answer, sentNonces, polls,
-              pollUrl, nreq, acctKey, retryDue, caller>>) /\ bad' = {}
+              pollUrl, nreq, acctKey, retryDue, caller, prev>>) /\ bad' = {}
 
 (* One transmission (loop body up to `send()`).  usedNonce: what the code put *)
 (* in the protected header; cellAfter: the cell once the request is built.    *)
@@ -145,7 +155,7 @@ Send(usedNonce, cellAfter) ==
     /\ cell' = cellAfter
     /\ phase' = "sent"
     /\ answer' = NoAnswer /\ retryDue' = FALSE
-    /\ Keep(<<issued, consumed, content, newest, polls, pollUrl, nreq, acctKey, caller>>)
+    /\ Keep(<<issued, consumed, content, newest, polls, pollUrl, nreq, acctKey, caller, prev>>)
 
 (* The CA receives a POST.  j: what the CA's own JWS verification found       *)
 (*   [nonce, url_ok, flattened, alg_ok, has_jwk, has_kid, kid_acct, signer,   *)
@@ -179,26 +189,26 @@ CaHandle(j, kind, type, n, upd) ==
     /\ acctKey' = IF upd.op \in {"create", "rekey"}
                   THEN (upd.acct :> upd.key) @@ acctKey
                   ELSE acctKey
-    /\ Keep(<<cell, tries, wire, newest, sentNonces, polls, pollUrl, nreq, retryDue, caller>>)
+    /\ Keep(<<cell, tries, wire, newest, sentNonces, polls, pollUrl, nreq, retryDue, caller, prev>>)
 
 (* The transmission never reaches the CA: `send().await?' returns at once.    *)
 Lose ==
     /\ answer' = [kind |-> "lost", type |-> "none", nonce |-> NoNonce]
     /\ phase' = "answered"
     /\ Keep(<<cell, issued, consumed, tries, content, wire, newest, sentNonces, polls,
-              pollUrl, nreq, acctKey, retryDue, caller>>) /\ bad' = {}
+              pollUrl, nreq, acctKey, retryDue, caller, prev>>) /\ bad' = {}
 
 (* The CA loses an account (outside any request).  The key it held stays in   *)
 (* the table: requests that still name the account are judged against it.      *)
 CaForget(a) ==
     /\ acctKey' = acctKey
     /\ Keep(<<cell, issued, consumed, phase, tries, content, wire, answer, newest,
-              sentNonces, polls, pollUrl, nreq, retryDue, caller>>) /\ bad' = {}
+              sentNonces, polls, pollUrl, nreq, retryDue, caller, prev>>) /\ bad' = {}
 
 (* check_status is Ok: the call returns the response.                         *)
 ClientOk ==
     /\ bad' = Chk("C08_NoSuccessOnError", answer.kind = "ok")
-    /\ phase' = "ok"
+    /\ phase' = "ok" /\ prev' = [prev EXCEPT !.fail = "none"]
     /\ Keep(<<cell, issued, consumed, tries, content, wire, answer, newest, sentNonces,
               polls, pollUrl, nreq, acctKey, retryDue, caller>>)
 
@@ -211,6 +221,7 @@ ClientErr(type, recov) ==
     /\ phase' = IF recov THEN "answered" ELSE "failed"
     /\ answer' = [answer EXCEPT !.kind = "error", !.type = type]
     /\ retryDue' = (type \in Recoverable /\ tries < MaxTries)
+    /\ prev' = [prev EXCEPT !.fail = IF type = "accountDoesNotExist" THEN "adne" ELSE "open"]
     /\ Keep(<<cell, issued, consumed, tries, content, wire, newest, sentNonces, polls,
               pollUrl, nreq, acctKey, caller>>)
 
@@ -219,14 +230,14 @@ GiveUp ==
     /\ bad' = Chk("C08_AtMost10", tries >= MaxTries)
     /\ phase' = "failed" /\ retryDue' = FALSE
     /\ Keep(<<cell, issued, consumed, tries, content, wire, answer, newest, sentNonces,
-              polls, pollUrl, nreq, acctKey, caller>>)
+              polls, pollUrl, nreq, acctKey, caller, prev>>)
 
 (* Any other way out of http::post (`?' on a lost connection, an invalid      *)
 (* Replay-Nonce header, a body that is not a problem document).               *)
 Fail ==
     /\ phase' = "failed"
     /\ Keep(<<cell, issued, consumed, tries, content, wire, answer, newest, sentNonces,
-              polls, pollUrl, nreq, acctKey, retryDue, caller>>) /\ bad' = {}
+              polls, pollUrl, nreq, acctKey, retryDue, caller, prev>>) /\ bad' = {}
 
 -----------------------------------------------------------------------------
 (* Model checking: the client as the code implements it (with Deviations)     *)
@@ -243,7 +254,11 @@ NoUpd == [op |-> "none"]
 MCBegin == /\ nreq < MaxRequests /\ phase \in {"idle", "ok", "failed"}
            /\ \E u \in Contents : \E p \in BOOLEAN :
                 /\ (p /\ u = pollUrl) => polls < MaxPolls   \* pool_object! stops by itself
+                \* a call that failed ends the attempt (`?'): the same request is only made again by the next attempt (MCOver),
+                \* unless the polling loop swallows the failure and goes round again
+                /\ Resent(u, "none") => (p /\ "PollSwallowsFailure" \in Deviations)
                 /\ Begin(p, u)
+MCOver == /\ phase \in {"ok", "failed"} /\ prev # NoPrev /\ AttemptOver("none")
 
 (* new_nonce inside post: `let _ =' ignores a failure (SendWithoutNonce).     *)
 MCFetch ==
@@ -252,11 +267,11 @@ MCFetch ==
          IF n # NoNonce
          THEN /\ issued' = issued \cup {n} /\ cell' = n /\ newest' = n /\ phase' = "loop"
               /\ Keep(<<consumed, tries, content, wire, answer, sentNonces, polls, pollUrl,
-                        nreq, acctKey, retryDue, caller>>) /\ bad' = {}
+                        nreq, acctKey, retryDue, caller, prev>>) /\ bad' = {}
          ELSE /\ phase' = IF "SendWithoutNonce" \in Deviations THEN "loop" ELSE "failed"
               /\ retryDue' = IF "SendWithoutNonce" \in Deviations THEN retryDue ELSE FALSE
               /\ Keep(<<cell, issued, consumed, tries, content, wire, answer, newest,
-                        sentNonces, polls, pollUrl, nreq, acctKey, caller>>) /\ bad' = {}
+                        sentNonces, polls, pollUrl, nreq, acctKey, caller, prev>>) /\ bad' = {}
 
 CellAfterUse == IF "NonceNotCleared" \in Deviations THEN cell ELSE NoNonce
 
@@ -270,7 +285,7 @@ MCSend ==
                            THEN "failed"    \* the nonce test hoisted out of the loop: "no anti-replay nonce", call abandoned
                            ELSE "fetch"     \* no nonce came with the error: fetch one first
                /\ Keep(<<cell, issued, consumed, tries, content, wire, answer, newest,
-                         sentNonces, polls, pollUrl, nreq, acctKey, retryDue, caller>>) /\ bad' = {}
+                         sentNonces, polls, pollUrl, nreq, acctKey, retryDue, caller, prev>>) /\ bad' = {}
           ELSE Send(cell, CellAfterUse)
     \/ /\ phase = "loop" /\ tries > 0     \* back from the in-loop fetch
        /\ Send(cell, CellAfterUse)
@@ -302,7 +317,7 @@ MCReact ==
                /\ ClientErr(answer.type, TRUE)
             \/ answer.kind \in {"nonproblem", "drop_after", "lost"} /\ Fail
 
-Next == MCBegin \/ MCFetch \/ MCSend \/ MCCa \/ MCReact
+Next == MCBegin \/ MCOver \/ MCFetch \/ MCSend \/ MCCa \/ MCReact
 
 Spec == Init /\ [][Next]_vars
 
